@@ -20,7 +20,7 @@ import gen
 from common import rng_for, close, frac
 from fractions import Fraction
 
-RULE = ("option sets from VERIF_SEED: -a -b -e in {.5,1,2,3}, -p in {.5,.9}, -n in 2..4, -d in {absolute, numerical, levenshtein}, -m, -c, -k, --seed (incl. 0), "
+RULE = ("option sets from VERIF_SEED: -a -e in {.5,1,2,3}, -b in {0,.5,1,2,3}, -p in {.5,.9}, -n in 2..4, -d in {absolute, numerical, levenshtein}, -m, -c, -k, --seed (incl. 0), "
         "-s in {',', ';'}, output mode in {print, -o, -j} (every combination of -c / -k with every output mode is covered), 1..3 input files (csv; rttm) whose label sets are subsets of one another with 2..3 annotators x 3..5 units and numeric or word labels; "
         "non-trivial = a non-default -d, -a/-b/-e different from 1, or -m; distinct by (files, options)")
 TRUSTED_BASE = ["Coq 8.16.1 kernel (props/C20.v over the regenerated table)", "harness/gen_tables.py (AST translator, fail-closed)", "harness/{common,gen,c20}.py",
@@ -159,6 +159,8 @@ def run(rep, tier, seed, pa):
         if si < len(grid):
             o["c"], o["k"], o["out"] = grid[si]
         targeted = si % 4 == 3
+        if si % 4 == 1:      # beta = 0 with a table-based categorical dissimilarity: gamma does not see it, gamma-cat / gamma-k do
+            o.update({"b": 0, "d": rng.choice(["levenshtein", "numerical"]), "c": True})
         if targeted:     # several files with nested numeric category sets of different spreads: each file must get ITS OWN categorical dissimilarity
             o.update({"d": "numerical", "fmt": "csv", "b": rng.choice([1, 2, 3])})
         if o["seed"] is None:
